@@ -170,6 +170,10 @@ var (
 	genNextVar int
 )
 
+// genLoops: emit reduce / foreach.  Must only be true when the installed driver (Model/MiniVM.lean)
+// has them, otherwise the lines are answered `?parse`.
+const genLoops = true
+
 // genQ: maxF = highest callable function index (-1: none); inFunc: `param` allowed.
 func genQ(r *common.Rand, depth, maxF int, inFunc bool) *q {
 	if len(genVars) > 0 && r.Chance(1, 6) {
@@ -184,7 +188,7 @@ func genQ(r *common.Rand, depth, maxF int, inFunc bool) *q {
 		genVars = genVars[:len(genVars)-1]
 		return &q{kind: "bind", x: x, a: src, b: body}
 	}
-	if depth > 0 && r.Chance(1, 9) {
+	if genLoops && depth > 0 && r.Chance(1, 9) {
 		// reduce / foreach: source and initial state outside the binding, update (and extract) inside
 		src := genQ(r, depth-1, maxF, inFunc)
 		init := genQ(r, depth-1, maxF, inFunc)
